@@ -117,33 +117,33 @@ TNextTrace == /\ tid <= Len(Tr) /\ l > Len(Tr[tid]) /\ pc = "done"
 Diagnose ==
     IF Rec.ev = "raise" THEN Rec.exc
     ELSE IF Rec.ev = "step" THEN
-        (IF pc \notin {"sweep", "pre"} THEN "spec: local factorization after the sweep was complete"
-         ELSE IF Rec.site # pos \/ Rec.dir # SweepDir THEN "spec: sweep order: unexpected site or direction"
-         ELSE IF ~(Rec.iso_ok /\ Rec.sparse_ok /\ Rec.pair_ok) THEN "spec: local step: isometry / sparsity / two-site product flag false"
-         ELSE "spec: new bond charges exceed the block-wise prediction (or differ from it for QR)")
+        (IF Strict /\ (pc \notin {"sweep", "pre"}) THEN "spec: local factorization after the sweep was complete"
+         ELSE IF Strict /\ (Rec.site # pos \/ Rec.dir # SweepDir) THEN "spec: sweep order: unexpected site or direction"
+         ELSE IF Strict /\ (~(Rec.iso_ok /\ Rec.sparse_ok /\ Rec.pair_ok)) THEN "spec: local step: isometry / sparsity / two-site product flag false"
+         ELSE IF Strict THEN "spec: new bond charges exceed the block-wise prediction (or differ from it for QR)" ELSE "a property clause of this event failed (no specific diagnostic)")
     ELSE IF Rec.ev = "end" THEN
-        (IF pc \in {"sweep", "pre"} /\ ~(Rec.hooks_missing /\ nsteps = 0) THEN "spec: call returned before its sweep over the sites was complete"
-         ELSE IF pc = "swept" /\ Rec.qD # qD THEN "spec: bond charges of the object differ from those of the local factorizations"
-         ELSE IF ~(\A b \in 1..(meta.L + 1) : Len(Rec.qD[b]) = Rec.dims[b]) THEN "spec: (clause of C02) length of a charge list differs from the bond dimension"
-         ELSE IF ~(\A b \in 1..(meta.L + 1) : Rec.dims[b] <= Len(meta.qD0[b])) THEN (IF meta.op = "compress" THEN "a bond dimension grew" ELSE "spec: a bond dimension grew")
-         ELSE IF meta.op = "ortho" /\ meta.pmode = meta.mode /\ ~SameBags(Rec.qD, meta.qD0) THEN "spec: repeated sweep in the same direction changed the bond charges (not a fixed point)"
-         ELSE IF ~Rec.is_zero /\ ~(Rec.qD[1] = meta.qD0[1] /\ Rec.qD[meta.L + 1] = meta.qD0[meta.L + 1]) THEN "spec: (clause of C02) total charge of a non-zero state changed"
+        (IF Strict /\ (pc \in {"sweep", "pre"} /\ ~(Rec.hooks_missing /\ nsteps = 0)) THEN "spec: call returned before its sweep over the sites was complete"
+         ELSE IF Strict /\ (pc = "swept" /\ Rec.qD # qD) THEN "spec: bond charges of the object differ from those of the local factorizations"
+         ELSE IF Strict /\ (~(\A b \in 1..(meta.L + 1) : Len(Rec.qD[b]) = Rec.dims[b])) THEN "spec: (clause of C02) length of a charge list differs from the bond dimension"
+         ELSE IF (Strict \/ meta.op = "compress") /\ ~(\A b \in 1..(meta.L + 1) : Rec.dims[b] <= Len(meta.qD0[b])) THEN (IF meta.op = "compress" THEN "a bond dimension grew" ELSE "spec: a bond dimension grew")
+         ELSE IF Strict /\ (meta.op = "ortho" /\ meta.pmode = meta.mode /\ ~SameBags(Rec.qD, meta.qD0)) THEN "spec: repeated sweep in the same direction changed the bond charges (not a fixed point)"
+         ELSE IF Strict /\ (~Rec.is_zero /\ ~(Rec.qD[1] = meta.qD0[1] /\ Rec.qD[meta.L + 1] = meta.qD0[meta.L + 1])) THEN "spec: (clause of C02) total charge of a non-zero state changed"
          ELSE IF ~Rec.nrm_nonneg THEN "returned factor negative"
          ELSE IF ~Rec.nrm_ok THEN "returned factor is not the norm of the original"
          ELSE IF ~Rec.state_ok THEN "factor * new state differs from the original state"
          ELSE IF ~Rec.unit_ok THEN "result does not have unit norm"
          ELSE IF ~Rec.forms_ok THEN "a site tensor is not an isometry in the chosen direction"
-         ELSE IF ~Rec.sparse_ok THEN "spec: (clause of C02) a tensor is not block sparse under the final charges"
+         ELSE IF Strict /\ (~Rec.sparse_ok) THEN "spec: (clause of C02) a tensor is not block sparse under the final charges"
          ELSE IF ~Rec.neighbour_ok THEN "a bond is larger than the neighbouring dimensions allow"
-         ELSE IF ~Rec.types_ok THEN "spec: (clause of C02) container / dtype clause"
+         ELSE IF Strict /\ (~Rec.types_ok) THEN "spec: (clause of C02) container / dtype clause"
          ELSE IF meta.op = "compress" /\ ~(Rec.scale_ok /\ Rec.err_ok) THEN "compress: scale outside [sqrt(1-L tol), 1] or error identity violated"
          ELSE IF ~ExactOK THEN "exact instance: nrm^2 # ||v||^2 or nrm * new # old"
-         ELSE "spec: zero-state bookkeeping")
+         ELSE IF Strict THEN "spec: zero-state bookkeeping" ELSE "a property clause of this event failed (no specific diagnostic)")
     ELSE IF Rec.ev = "begin" THEN "a later call does not start from the charges / shape the previous call left behind"
     ELSE IF Rec.ev = "firstbond" THEN "first truncated bond does not keep the Schmidt values prescribed by the tolerance rule"
     ELSE IF Rec.ev = "from_vector" THEN
         (IF ~(Rec.err_ok /\ Rec.shapes_ok /\ Rec.exact_ok) THEN "from_vector: error bound / shapes / exactness at tol = 0"
-         ELSE "spec: (clause of C02 / C19) from_vector: container types of the charge lists / input vector modified")
+         ELSE IF Strict THEN "spec: (clause of C02 / C19) from_vector: container types of the charge lists / input vector modified" ELSE "a property clause of this event failed (no specific diagnostic)")
     ELSE "unexpected event"
 
 TReject == /\ tid <= Len(Tr)
